@@ -56,19 +56,22 @@ type Scenario struct {
 	Horizon int  // max environment events
 	Timed   bool // timers fire in deadline order only
 	// Goal ends the execution (checked at quiescent points once the script is finished).
-	Goal        func(w *World) bool
-	AutoRestart bool
-	Pipeline    bool
-	NotifyCh    bool
-	Fine        bool // branch on thread steps (preemption bounded)
-	RCL         bool // RestoreCommittedLogs
-	NoStoreFaultBeforeStep int // store faults only count from this script position on
+	Goal                   func(w *World) bool
+	AutoRestart            bool
+	Pipeline               bool
+	NotifyCh               bool
+	Fine                   bool // branch on thread steps (preemption bounded)
+	RCL                    bool // RestoreCommittedLogs
+	NoStoreFaultBeforeStep int  // store faults only count from this script position on
 }
 
 type Step struct {
 	Name string
 	When func(w *World) bool
 	Do   func(w *World)
+	// EarlyWhen: with DevStepEarly the step is also offered (as a deviation) at every
+	// quiescent point where this weaker guard holds, i.e. before its default instant.
+	EarlyWhen func(w *World) bool
 }
 
 type Node struct {
@@ -81,15 +84,15 @@ type Node struct {
 	conf  *raft.Config
 
 	// volatile
-	up       bool
-	inc      int
-	r        *raft.Raft
-	fsm      *VFSM
-	trans    *VTrans
-	notifyCh chan bool
-	booted   bool
-	bootErr  error
-	everUp   bool
+	up           bool
+	inc          int
+	r            *raft.Raft
+	fsm          *VFSM
+	trans        *VTrans
+	notifyCh     chan bool
+	booted       bool
+	bootErr      error
+	everUp       bool
 	crashedByDev bool
 }
 
@@ -123,6 +126,8 @@ type Msg struct {
 	DelivAt   int
 	SentAt    int
 	Discard   bool // response is thrown away (dup / late)
+	held      bool // response withheld by a scripted fault
+	bypass    bool // response already received by the caller's host: not affected by a later partition
 	pipe      *vpipe
 	pf        *vpipeFuture
 }
@@ -147,31 +152,33 @@ type Call struct {
 }
 
 type World struct {
-	sc      *Scenario
-	sched   *vsched.Sched
-	rec     *Recorder
-	nodes   []*Node
-	msgs    []*Msg
-	live    []*Msg // messages that can still produce transitions
-	blocked map[[2]int]bool
-	events  int
-	transitions int
-	stepPos int
-	calls   []*Call
-	mon     *Monitors
-	trace   []string
-	keepTr  bool
-	endWhy  string
-	nextPay int
-	randMax bool
-	internalErr string
+	sc            *Scenario
+	sched         *vsched.Sched
+	rec           *Recorder
+	nodes         []*Node
+	msgs          []*Msg
+	live          []*Msg // messages that can still produce transitions
+	blocked       map[[2]int]bool
+	events        int
+	transitions   int
+	stepPos       int
+	calls         []*Call
+	mon           *Monitors
+	trace         []string
+	keepTr        bool
+	endWhy        string
+	nextPay       int
+	randMax       bool
+	internalErr   string
 	storeFaultsOn bool
-	vals    map[string]int // scratch for scenarios
-	fineNow   bool          // fine-grained thread exploration switched on (Scenario.Fine)
-	timedNow  bool          // timers strictly in deadline order from now on
-	noDevs    bool          // no deviations offered any more (faults stopped)
-	tvals     map[string]time.Duration
-	randExtra map[int]int64 // per node: answer of rand.Int63() (timeout jitter)
+	vals          map[string]int // scratch for scenarios
+	fineNow       bool           // fine-grained thread exploration switched on (Scenario.Fine)
+	timedNow      bool           // timers strictly in deadline order from now on
+	noDevs        bool           // no deviations offered any more (faults stopped)
+	tvals         map[string]time.Duration
+	consumers     []*notifyConsumer
+	holdResp      func(m *Msg) bool // scripted fault: withhold matching responses
+	randExtra     map[int]int64     // per node: answer of rand.Int63() (timeout jitter)
 }
 
 func (w *World) logf(f string, a ...any) {
@@ -255,6 +262,9 @@ func (w *World) start(n *Node) {
 	}
 	inc := n.inc
 	w.mon.OnStart(n.id, inc, n)
+	if w.sc.NotifyCh {
+		w.startConsumer(n)
+	}
 	vsched.GoNamed(fmt.Sprintf("boot-n%d.%d", n.id, inc), n.group(), func() {
 		r, err := raft.NewRaft(&conf, n.fsm.AsFSM(w.sc.FSM), n.store.LogStore(), n.store, n.snaps, n.trans)
 		if n.inc != inc || !n.up {
@@ -383,11 +393,11 @@ type VTrans struct {
 	hb   func(raft.RPC)
 }
 
-func (t *VTrans) Consumer() <-chan raft.RPC                                  { return t.cons }
-func (t *VTrans) LocalAddr() raft.ServerAddress                              { return t.n.addr }
-func (t *VTrans) SetHeartbeatHandler(cb func(raft.RPC))                      { t.hb = cb }
-func (t *VTrans) EncodePeer(id raft.ServerID, a raft.ServerAddress) []byte   { return []byte(a) }
-func (t *VTrans) DecodePeer(b []byte) raft.ServerAddress                     { return raft.ServerAddress(b) }
+func (t *VTrans) Consumer() <-chan raft.RPC                                { return t.cons }
+func (t *VTrans) LocalAddr() raft.ServerAddress                            { return t.n.addr }
+func (t *VTrans) SetHeartbeatHandler(cb func(raft.RPC))                    { t.hb = cb }
+func (t *VTrans) EncodePeer(id raft.ServerID, a raft.ServerAddress) []byte { return []byte(a) }
+func (t *VTrans) DecodePeer(b []byte) raft.ServerAddress                   { return raft.ServerAddress(b) }
 
 func (w *World) nodeByAddr(a raft.ServerAddress) int {
 	for _, n := range w.nodes {
@@ -473,10 +483,10 @@ func (t *VTrans) TimeoutNow(id raft.ServerID, target raft.ServerAddress, a *raft
 // --- pipeline (optional flavour) -------------------------------------------
 
 type vpipe struct {
-	t      *VTrans
-	target raft.ServerAddress
-	doneCh chan raft.AppendFuture
-	closed bool
+	t        *VTrans
+	target   raft.ServerAddress
+	doneCh   chan raft.AppendFuture
+	closed   bool
 	inflight []*vpipeFuture
 }
 
@@ -493,9 +503,9 @@ func (f *vpipeFuture) Error() error {
 	vsched.WaitAlways("pipefuture", func() bool { return f.done })
 	return f.err
 }
-func (f *vpipeFuture) Start() time.Time                        { return f.start }
-func (f *vpipeFuture) Request() *raft.AppendEntriesRequest    { return f.req }
-func (f *vpipeFuture) Response() *raft.AppendEntriesResponse  { return f.resp }
+func (f *vpipeFuture) Start() time.Time                      { return f.start }
+func (f *vpipeFuture) Request() *raft.AppendEntriesRequest   { return f.req }
+func (f *vpipeFuture) Response() *raft.AppendEntriesResponse { return f.resp }
 
 func (t *VTrans) AppendEntriesPipeline(id raft.ServerID, target raft.ServerAddress) (raft.AppendPipeline, error) {
 	if !t.w.sc.Pipeline {
@@ -672,6 +682,13 @@ func (w *World) envOptions() []envOpt {
 		if m.HandledAt == 0 {
 			m.HandledAt = w.events
 			w.mon.OnHandled(m)
+			if w.holdResp != nil && w.holdResp(m) {
+				m.held = true
+				w.logf("HOLD response of %s", m.String())
+			}
+		}
+		if m.held {
+			continue
 		}
 		callerAlive := w.nodes[m.From].up && w.nodes[m.From].inc == m.FromInc
 		if !callerAlive {
@@ -679,7 +696,7 @@ func (w *World) envOptions() []envOpt {
 			<-m.respCh
 			continue
 		}
-		if !w.linkOK(m.To, m.From) {
+		if !w.linkOK(m.To, m.From) && !m.bypass {
 			addDef(envOpt{label: "fail-resp " + m.String(), do: func() { w.failMsg(m) }})
 			continue
 		}
@@ -729,6 +746,14 @@ func (w *World) envOptions() []envOpt {
 			alts = append(alts, envOpt{label: "late " + m.String(), cost: 1, do: func() { m.Dropped = false; w.deliver(m, true) }})
 		}
 	}
+	// notification consumers: allowing the next read is a decision of the environment
+	for _, nc := range w.consumers {
+		nc := nc
+		n := w.nodes[nc.node]
+		if n.up && n.inc == nc.inc && nc.permits == len(nc.reads) && !nc.waiting {
+			addDef(envOpt{label: fmt.Sprintf("consumer n%d may read", nc.node), cost: 1, do: func() { nc.permits++ }})
+		}
+	}
 	// 3. scripted step
 	if w.stepPos < len(w.sc.Steps) {
 		st := w.sc.Steps[w.stepPos]
@@ -744,7 +769,13 @@ func (w *World) envOptions() []envOpt {
 			st.Do(w)
 		}
 		if st.When == nil || safeWhen(st.When, w) {
-			addDef(envOpt{label: "step " + st.Name, cost: 1, do: do})
+			c := 1
+			if devs&DevStepEarly == 0 {
+				c = -1
+			}
+			addDef(envOpt{label: "step " + st.Name, cost: c, do: do})
+		} else if devs&DevStepEarly != 0 && st.EarlyWhen != nil && safeWhen(st.EarlyWhen, w) {
+			alts = append(alts, envOpt{label: "step " + st.Name + " (early)", cost: 1, do: do})
 		}
 	}
 	// 4. auto restart
